@@ -365,6 +365,33 @@ def h_compress_aux(env, n, n_terms, seed):
             env.check_true(0 < len(after) < len(before) or n_terms < 4, "the chosen eps drops some terms and keeps others", detail=f"{len(before)} -> {len(after)}")
 
 
+def h_compress_complex(env, n, n_terms, seed):
+    """AUXILIARY concrete shape (numpy, no solver role): operators with IMAGINARY / COMPLEX coefficients (anti-Hermitian generators,
+    Hermitian + anti-Hermitian mixtures): frobenius_norm_compression(eps, n) changes the operator by at most eps in spectral norm
+    (hence every eigenvalue of a normal operator by at most eps), keeps coefficients unchanged and adds no term"""
+    from openfermion import get_sparse_operator
+    from tangelo.toolboxes.operators import QubitOperator
+    rnd = random.Random(3000 * n + 13 * n_terms + seed)
+    with shim.concrete_mode():
+        for kind in ("imaginary", "complex"):
+            op = QubitOperator()
+            while len(op.terms) < n_terms:
+                w = tuple((q, rnd.choice("XYZ")) for q in range(n) if rnd.random() < 0.6)
+                mag = rnd.choice([1, -1]) * 10 ** rnd.uniform(-3, 0)
+                op.terms[w] = 1j * mag if kind == "imaginary" else complex(mag * rnd.uniform(-1, 1), mag)
+            before = dict(op.terms)
+            M0 = get_sparse_operator(op, n_qubits=n).toarray()
+            mags = sorted(abs(c) for c in before.values())
+            eps = float(np.sqrt(sum(m * m for m in mags[:3])) * np.sqrt(2 ** n) * 1.0000001)
+            op.frobenius_norm_compression(eps, n)
+            after = dict(op.terms)
+            M1 = get_sparse_operator(op, n_qubits=n).toarray() if after else np.zeros_like(M0)
+            dist = float(np.linalg.norm(M0 - M1, 2))
+            env.check_true(dist <= eps + 1e-9, f"{kind} coefficients ({n} qubits, {n_terms} terms): ||A - A'||_2 <= eps", detail=f"{dist} > eps {eps}")
+            env.check_true(all(w in before and abs(after[w] - before[w]) < 1e-15 for w in after), f"{kind} coefficients: kept terms are input terms with unchanged coefficients")
+            env.check_true(0 < len(after) < len(before), f"{kind} coefficients: the chosen eps drops some terms and keeps others", detail=f"{len(before)} -> {len(after)}")
+
+
 def h_product_large(env, n, n_a, n_b, seed):
     """AUXILIARY concrete shape (no solver role; the index arithmetic lives in numpy): the MultiformOperator product that the
     tapering rotation U*H*U is made of, for operand sizes whose (term, term) table has MORE than 2**15 (and, thorough, 2**16) rows:
@@ -447,6 +474,8 @@ def shapes(tier, seed):
         out.append(Shape(f"compress/n{n}/{i}", h_compress, dict(n=n, words=words), modules=MODS, max_paths=128, policy=dict(threshold="fork")))
     for (n_, k_) in ((1, 3), (2, 6), (3, 8), (3, 12), (4, 10)) + (((5, 14), (4, 20)) if tier == "thorough" else ()):
         out.append(Shape(f"aux/compress-nondiagonal/n{n_}/k{k_}", h_compress_aux, dict(n=n_, n_terms=k_, seed=seed), modules=()))
+    for (n_, k_) in ((2, 6), (3, 8), (4, 10)):
+        out.append(Shape(f"aux/compress-complex/n{n_}/k{k_}", h_compress_complex, dict(n=n_, n_terms=k_, seed=seed), modules=()))
     out.append(Shape("canary/compress", h_compress, dict(n=2, words=[[(0, "Z")], [(1, "Z")]], canary=True), modules=MODS, max_paths=128,
                      canary=True, policy=dict(threshold="fork")))
     return out
